@@ -84,7 +84,7 @@ def run_concdrv(binary, cases, tag):
     tpath = os.path.join(outdir, tag + ".trace.ndjson")
     with open(cpath, "w") as f:
         for c in cases:
-            f.write(json.dumps({k: v for k, v in c.items() if not k.startswith("pred_")}, separators=(",", ":")) + "\n")
+            f.write(json.dumps({k: v for k, v in c.items() if not k.startswith("pred_") and k != "replay_cfg"}, separators=(",", ":")) + "\n")
     start = 0
     lines = []
     guard = 0
@@ -262,6 +262,23 @@ def run(prop, tier, seed, replay=None):
             behs = syncexport.parse(out)
             for i, b in enumerate(behs):
                 cases.append(syncexport.build_case(b, "%s-%d" % (name, i)))
+            # the same scripts under random / PCT schedules: the schedule actually taken is afterwards
+            # stepped through the design spec (SyncReplay) and its records compared (impl -> spec)
+            if behs:
+                rrng = random.Random(seed * 31 + len(cases))
+                nrp = 60 if tier == "quick" else 600
+                for i in range(nrp):
+                    c = syncexport.build_case(behs[0], "rp-%s-%d" % (name, i))
+                    c.pop("pred_lo"); c.pop("pred_hi")
+                    c["schedule"] = []
+                    c["seed"] = seed * 7000 + i
+                    if i % 3 == 0:
+                        c["fallback"] = "rand"
+                    else:
+                        c["fallback"] = "pct"
+                        c["change"] = sorted(rrng.sample(range(1, 46), rrng.choice([1, 1, 2, 3])))
+                    c["replay_cfg"] = (name, k, wb, sc, ms)
+                    cases.append(c)
         # random scripts under random schedules
         rng = random.Random(seed * 7919 + 13)
         nr = 900 if tier == "quick" else 12000
@@ -312,6 +329,46 @@ def run(prop, tier, seed, replay=None):
             if d:
                 d["case"] = c["case"]
                 drift.append(d)
+    # impl -> design spec for the random / PCT schedules of the configured scripts
+    groups = {}
+    for i, c in enumerate(cases):
+        if "replay_cfg" in c:
+            groups.setdefault(c["replay_cfg"], []).append(i)
+    replayed = 0
+    for (name, k, wb, sc, ms), idxs in groups.items():
+        spath = os.path.join(common.WORK, "conc", "%s-%s.scheds.ndjson" % (tag, name))
+        with open(spath, "w") as f:
+            for i in idxs:
+                taken = []
+                for e in per.get(i, []):
+                    if e.get("e") == "end" and "taken" in e:
+                        taken = e["taken"]
+                f.write(json.dumps({"name": cases[i]["case"], "taken": taken}) + "\n")
+        cfg = write_cfg(name + "_rp", k, wb, sc, ms, "SeqCst", "SeqCst", False).replace(".cfg", "")
+        cpath2 = os.path.join(common.SPECS, cfg + ".cfg")
+        txt = open(cpath2).read().replace("SPECIFICATION Spec", "SPECIFICATION RSpec")
+        txt = "\n".join(l for l in txt.splitlines() if not l.startswith("INVARIANT") and not l.startswith("VIEW")) + "\n"
+        open(cpath2, "w").write(txt)
+        rc, out = common.tlc("SyncReplay.tla", cfg + ".cfg", "syncrp-%s-%s" % (prop, name), env={"SCHEDS": spath}, workers=1,
+                             javaopts="-Xss1g -Dtlc2.tool.queue.IStateQueue=StateDeque", timeout=3000)
+        import re as _re
+        preds = {}
+        for m in _re.finditer(r'<<"RCASE", "(.*)">>', out):
+            d = json.loads(m.group(1).encode().decode("unicode_escape"))
+            preds[d["name"]] = d
+        for i in idxs:
+            d = preds.get(cases[i]["case"])
+            if d is None:
+                drift.append({"case": cases[i]["case"], "stream": "replay", "at": 0, "spec": "no prediction (TLC)", "code": None})
+                continue
+            replayed += 1
+            cc = dict(cases[i], pred_lo=syncexport._seq(d["lo"]), pred_hi=syncexport._seq(d["hi"]))
+            dd = syncexport.compare(cc, per.get(i, []))
+            if dd is None and not d["finished"]:
+                dd = {"stream": "replay", "at": d["steps"], "spec": "schedule leaves the design spec (thread not enabled)", "code": None}
+            if dd:
+                dd["case"] = cases[i]["case"]
+                drift.append(dd)
     # memory orderings actually passed by the code
     oset, odrain = observed_orderings(lines)
     ordering_checked = False
@@ -327,7 +384,7 @@ def run(prop, tier, seed, replay=None):
                     viols.append({"why": "with the memory orderings the code passes (set=%s, drain=%s) the model violates %s" % (
                         oset, odrain, "Published" if "Published" in out else "an invariant"), "replay": p, "sig": "ordering"})
                 break
-    run_list = [{k: v for k, v in c.items() if not k.startswith("pred_")} for c in cases]
+    run_list = [{k: v for k, v in c.items() if not k.startswith("pred_") and k != "replay_cfg"} for c in cases]
     samples = [run_list[i] for i in range(0, len(run_list), max(1, len(run_list) // 3))][:3]
     coverage = {
         "states": states, "transitions": trans,
@@ -338,6 +395,7 @@ def run(prop, tier, seed, replay=None):
         "rule": "cases = schedules exported by TLC from Sync.tla configs %s (one per simulated behaviour) + random scripts under seeded random schedules; distinct by (scripts, schedule, seed)" % specs,
         "trace_records": len(lines),
         "spec_generated_cases": sum(1 for c in cases if "pred_lo" in c),
+        "schedules_replayed_through_spec": replayed,
         "drift_events": drift[:10], "drift_count": len(drift),
         "observed_orderings": {"set": oset, "drain": odrain, "model_rechecked": ordering_checked},
         "tlc_specs": specs,
